@@ -660,9 +660,9 @@ def _weather_driver():
     plugin.install(['weather'])
     pt = GroundTrack.Point(Location(longitude=-74.5, latitude=40.5), 90.0)
     alt = float(altitude_from_pressure_isa_bada4(np.array([250.0 * 100.0]))[0])
-    seqs = [[(1, 6), (1, 6), (1, 18), (2, 18), (2, 6), (3, 6), (3, 18), (1, 18)],
+    seqs = [[(1, 6), (1, 6), (1, 18), (2, 12), (2, 6), (3, 6), (3, 18), (1, 18)],
             [(3, 6), (4, 6), (4, 6), (1, 6), (4, 12), (2, 12), (2, 12), (3, 12)],
-            [(2, 18), (1, 18), (2, 18), (4, 18), (4, 18), (3, 6), (1, 6)]]
+            [(2, 12), (1, 18), (2, 12), (4, 18), (4, 18), (3, 6), (1, 6)]]
     out = []
     for si, seq in enumerate(seqs):
         plugin.start(f'driver-{si}')
